@@ -424,4 +424,209 @@ def accepts (l : Lang) (ts : List Tok) : Bool := parse (goCfg l) ts
 /-- The recogniser of the shells' grammar `Derives (shCfg l)`. -/
 def shellAccepts (l : Lang) (ts : List Tok) : Bool := parse (shCfg l) ts
 
+
+
+/-! ## The specification: the shell grammar on tokens
+
+  POSIX XCU 2.10.2 restricted to the token alphabet, written with the left recursions of
+  `and_or`, `pipe_sequence`, `term`, `case_list` turned into tails (`aoTail`, `pipeTail`, the
+  `list` rules, `caseItems`), and with the one context dependency of the shell language made
+  explicit: reserved words are only recognised where a command may start, so what may *follow*
+  a derived string depends on how it ends (`End`).  Every rule variant of `Cfg` appears as a
+  side condition of one rule.
+-/
+
+/-- How a derived string ends, i.e. what may follow it. -/
+inductive End
+  | closed        -- a compound command (and its redirections) or a separator: anything but a redirection
+  | «open»        -- inside a simple command: only a command terminator (a closing reserved word would be an argument)
+  | bare          -- bash's lone `!`: only `;`, newline or end of input
+  | sealedClosed  -- function definition whose body is an and-or list (Go): as `closed`, but no `|` `&&` `||`
+  | sealedOpen    -- … as `open`, but no `|` `&&` `||`
+  deriving DecidableEq, Repr
+
+def End.seal : End → End
+  | .closed => .sealedClosed
+  | .open => .sealedOpen
+  | e => e
+
+def notCont : Option Tok → Bool
+  | some pipe | some andIf | some orIf => false
+  | _ => true
+
+def openOK (q : Q) : Option Tok → Bool
+  | none => true
+  | some t => callStop t || (t == rparen && q == .sub)
+
+/-- `allows q e next`: a string ending like `e` may be followed by `next` (`none` = end of input). -/
+def allows (q : Q) : End → Option Tok → Bool
+  | .closed, n => n != some io
+  | .open, n => openOK q n
+  | .bare, n => n == none || n == some nl || n == some semi
+  | .sealedClosed, n => n != some io && notCont n
+  | .sealedOpen, n => openOK q n && notCont n
+
+def nls (k : Nat) : List Tok := List.replicate k nl
+def bangs (k : Nat) : List Tok := List.replicate k bang
+
+/-- `io_redirect*`. -/
+inductive Redirs : List Tok → Prop
+  | nil : Redirs []
+  | cons {w r} : wordLike w = true → Redirs r → Redirs (io :: w :: r)
+
+/-- `cmd_suffix`: words (any word-like token, reserved or not) and redirections. -/
+inductive Items : List Tok → Prop
+  | nil : Items []
+  | arg {t r} : wordLike t = true → Items r → Items (t :: r)
+  | redir {w r} : wordLike w = true → Items r → Items (io :: w :: r)
+
+/-- `wordlist`. -/
+inductive Words : List Tok → Prop
+  | nil : Words []
+  | cons {t r} : wordLike t = true → Words r → Words (t :: r)
+
+/-- `pattern : WORD | pattern '|' WORD`, then `)`. -/
+inductive Pats : List Tok → Prop
+  | one {w} : wordLike w = true → Pats [w, rparen]
+  | more {w r} : wordLike w = true → Pats r → Pats (w :: pipe :: r)
+
+/-- The first word of a simple command (`cmd_name` / `cmd_word` / an assignment): not a reserved
+    word, except (rule variants) after a redirection, `else`/`in`, and the second `!` of
+    `! >f ! a`. -/
+def firstOK (c : Cfg) (neg pre : Bool) (t : Tok) : Bool :=
+  t == word || t == qword || t == assign
+  || (pre && !c.rsrvAfterIO && isRsrv t)
+  || (t == bang && neg)
+  || ((t == kElse || t == kIn) && c.elseInCmd)
+
+/-- `fname`. -/
+def fnNameOK (c : Cfg) (neg : Bool) (t : Tok) : Bool :=
+  t == word || ((t == kElse || t == kIn) && c.elseInCmd) || (t == bang && neg && !c.posix)
+
+def startsCompound : List Tok → Bool
+  | t :: _ => isCompoundStart t
+  | [] => false
+
+/-- `for name [linebreak in wordlist] sequential_sep? do` as a token list after `for`, with the
+    closing word. -/
+inductive ForHead (c : Cfg) : List Tok → Tok → Prop
+  | semi {nm k} : isLitWord nm = true → (nm ≠ assign ∨ c.forAssign = true) →
+      ForHead c (nm :: semi :: nls k ++ [kDo]) kDone
+  | plain {nm k} : isLitWord nm = true → (nm ≠ assign ∨ c.forAssign = true) →
+      ForHead c (nm :: nls k ++ [kDo]) kDone
+  | inSemi {nm k ws j} : isLitWord nm = true → (nm ≠ assign ∨ c.forAssign = true) → Words ws →
+      ForHead c (nm :: nls k ++ kIn :: ws ++ semi :: nls j ++ [kDo]) kDone
+  | inNl {nm k ws j} : isLitWord nm = true → (nm ≠ assign ∨ c.forAssign = true) → Words ws →
+      ForHead c (nm :: nls k ++ kIn :: ws ++ nl :: nls j ++ [kDo]) kDone
+  -- bash: `{ … }` instead of `do … done`, only after `;` or the word list
+  | semiB {nm k} : c.forBrace = true → isLitWord nm = true → (nm ≠ assign ∨ c.forAssign = true) →
+      ForHead c (nm :: semi :: nls k ++ [lbrace]) rbrace
+  | inSemiB {nm k ws j} : c.forBrace = true → isLitWord nm = true → (nm ≠ assign ∨ c.forAssign = true) →
+      Words ws → ForHead c (nm :: nls k ++ kIn :: ws ++ semi :: nls j ++ [lbrace]) rbrace
+  | inNlB {nm k ws j} : c.forBrace = true → isLitWord nm = true → (nm ≠ assign ∨ c.forAssign = true) →
+      Words ws → ForHead c (nm :: nls k ++ kIn :: ws ++ nl :: nls j ++ [lbrace]) rbrace
+
+inductive NT
+  | program
+  /-- `compound_list` / `term` with the reserved words that end it; `any`: it contains a command. -/
+  | list (q : Q) (stops : List Tok) (any : Bool)
+  /-- `and_or`. -/
+  | stmt (q : Q)
+  /-- `! pipeline` / `pipeline`, one element of an `and_or`. -/
+  | bpipe (q : Q)
+  | aoTail (q : Q) (e0 : End)
+  /-- `pipe_sequence`. -/
+  | pipeline (q : Q) (neg : Bool)
+  | pipeTail (q : Q) (e0 : End)
+  /-- `command` with its redirections. -/
+  | command (q : Q) (neg : Bool)
+  | compound (q : Q)
+  | ifTail (q : Q) (e0 : End)
+  | caseItems
+
+/-- A statement may not start with a word that ends the enclosing list (only `else` can, under
+    `elseInCmd`). -/
+def startOK (stops : List Tok) (s : List Tok) : Prop :=
+  match s.head? with
+  | some t => stops.contains t = false
+  | none => True
+
+inductive Derives (c : Cfg) : NT → End → List Tok → Prop
+  | program {a e ts} : Derives c (.list .none [] a) e ts → Derives c .program .closed ts
+  -- list
+  | l_nil {q stops} : Derives c (.list q stops false) .closed []
+  | l_nl {q stops a e ts} : Derives c (.list q stops a) e ts → Derives c (.list q stops a) e (nl :: ts)
+  | l_last {q stops e s} : Derives c (.stmt q) e s → startOK stops s → Derives c (.list q stops true) e s
+  | l_sep {q stops e0 s sep a e ts} : Derives c (.stmt q) e0 s → startOK stops s →
+      (sep = semi ∨ sep = amp) → allows q e0 (some sep) = true →
+      Derives c (.list q stops a) e ts → Derives c (.list q stops true) e (s ++ sep :: ts)
+  | l_newl {q stops e0 s a e ts} : Derives c (.stmt q) e0 s → startOK stops s →
+      allows q e0 (some nl) = true →
+      Derives c (.list q stops a) e ts → Derives c (.list q stops true) e (s ++ nl :: ts)
+  -- and_or
+  | stmt {q e0 p e t} : Derives c (.bpipe q) e0 p → Derives c (.aoTail q e0) e t → Derives c (.stmt q) e (p ++ t)
+  | t_nil {q e0} : Derives c (.aoTail q e0) e0 []
+  | t_op {q e0 op k e1 p e t} : (op = andIf ∨ op = orIf) → allows q e0 (some op) = true →
+      Derives c (.bpipe q) e1 p → Derives c (.aoTail q e1) e t →
+      Derives c (.aoTail q e0) e (op :: nls k ++ p ++ t)
+  | b_plain {q e p} : Derives c (.pipeline q false) e p → Derives c (.bpipe q) e p
+  | b_bang {q e p} : c.bangAlone = false → Derives c (.pipeline q true) e p → p.head? ≠ some bang →
+      Derives c (.bpipe q) e (bang :: p)
+  | b_bangs {q e p k} : c.bangAlone = true → Derives c (.pipeline q true) e p → p.head? ≠ some bang →
+      Derives c (.bpipe q) e (bang :: bangs k ++ p)
+  | b_bare {q k} : c.bangAlone = true → Derives c (.bpipe q) .bare (bang :: bangs k)
+  -- pipe_sequence
+  | pipeline {q neg e0 cm e t} : Derives c (.command q neg) e0 cm → Derives c (.pipeTail q e0) e t →
+      Derives c (.pipeline q neg) e (cm ++ t)
+  | p_nil {q e0} : Derives c (.pipeTail q e0) e0 []
+  | p_pipe {q e0 k e1 cm e t} : allows q e0 (some pipe) = true →
+      Derives c (.command q false) e1 cm → Derives c (.pipeTail q e1) e t →
+      Derives c (.pipeTail q e0) e (pipe :: nls k ++ cm ++ t)
+  -- command
+  | c_simple {q neg pre t its} : Redirs pre → firstOK c neg (!pre.isEmpty) t = true → Items its →
+      Derives c (.command q neg) .open (pre ++ t :: its)
+  | c_redir {q neg w r} : wordLike w = true → Redirs r → Derives c (.command q neg) .open (io :: w :: r)
+  | c_compound {q neg body post} : Derives c (.compound q) .closed body → Redirs post →
+      Derives c (.command q neg) .closed (body ++ post)
+  | f_andor {q neg nm k e body} : c.fnBody = .andOr → fnNameOK c neg nm = true →
+      Derives c (.stmt q) e body → Derives c (.command q neg) e.seal (nm :: lparen :: rparen :: nls k ++ body)
+  | f_command {q neg nm k e body} : c.fnBody = .command → fnNameOK c neg nm = true →
+      Derives c (.command q false) e body → Derives c (.command q neg) e (nm :: lparen :: rparen :: nls k ++ body)
+  | f_compound {q neg nm k e body} : c.fnBody = .compound → fnNameOK c neg nm = true →
+      Derives c (.command q false) e body → startsCompound body = true →
+      Derives c (.command q neg) e (nm :: lparen :: rparen :: nls k ++ body)
+  -- compound commands
+  | block {q e l} : Derives c (.list q [rbrace] true) e l → allows q e (some rbrace) = true →
+      Derives c (.compound q) .closed (lbrace :: l ++ [rbrace])
+  | subshell {q e l} : Derives c (.list .sub [] true) e l → allows .sub e (some rparen) = true →
+      Derives c (.compound q) .closed (lparen :: l ++ [rparen])
+  | ifc {q e1 cond e2 thn e t} : Derives c (.list q [kThen] true) e1 cond → allows q e1 (some kThen) = true →
+      Derives c (.list q [kFi, kElif, kElse] true) e2 thn → Derives c (.ifTail q e2) e t →
+      Derives c (.compound q) .closed (kIf :: cond ++ kThen :: thn ++ t)
+  | i_fi {q e0} : allows q e0 (some kFi) = true → Derives c (.ifTail q e0) .closed [kFi]
+  | i_else {q e0 e l} : allows q e0 (some kElse) = true → Derives c (.list q [kFi] true) e l →
+      allows q e (some kFi) = true → Derives c (.ifTail q e0) .closed (kElse :: l ++ [kFi])
+  | i_elif {q e0 e1 cond e2 thn e t} : allows q e0 (some kElif) = true →
+      Derives c (.list q [kThen] true) e1 cond → allows q e1 (some kThen) = true →
+      Derives c (.list q [kFi, kElif, kElse] true) e2 thn → Derives c (.ifTail q e2) e t →
+      Derives c (.ifTail q e0) .closed (kElif :: cond ++ kThen :: thn ++ t)
+  | loop {q kw e1 cond e2 body} : (kw = kWhile ∨ kw = kUntil) →
+      Derives c (.list q [kDo] true) e1 cond → allows q e1 (some kDo) = true →
+      Derives c (.list q [kDone] true) e2 body → allows q e2 (some kDone) = true →
+      Derives c (.compound q) .closed (kw :: cond ++ kDo :: body ++ [kDone])
+  | forc {q hd close e body} : ForHead c hd close →
+      Derives c (.list q [close] true) e body → allows q e (some close) = true →
+      Derives c (.compound q) .closed (kFor :: hd ++ body ++ [close])
+  | casec {q w k j e items} : wordLike w = true → Derives c .caseItems e items →
+      Derives c (.compound q) .closed (kCase :: w :: nls k ++ kIn :: nls j ++ items)
+  -- case_list: every item but the last ends with `;;`
+  | ci_esac : Derives c .caseItems .closed [kEsac]
+  | ci_last {lp pat a e l} : (lp = [] ∨ lp = [lparen]) → Pats pat → (lp = [] → pat.head? ≠ some kEsac) →
+      Derives c (.list .case [kEsac] a) e l → allows .case e (some kEsac) = true →
+      Derives c .caseItems .closed (lp ++ pat ++ l ++ [kEsac])
+  | ci_item {lp pat a e l k e' rest} : (lp = [] ∨ lp = [lparen]) → Pats pat → (lp = [] → pat.head? ≠ some kEsac) →
+      Derives c (.list .case [kEsac] a) e l → allows .case e (some dsemi) = true →
+      Derives c .caseItems e' rest →
+      Derives c .caseItems .closed (lp ++ pat ++ l ++ dsemi :: nls k ++ rest)
+
 end ShVerif.C12
